@@ -172,7 +172,7 @@ private:
     bool                p_connected_ = false;       // the link layer scheduled connection events
     bool                established_ = false;
     std::uint64_t       last_attended_abs_ = 0;
-    std::uint64_t       last_listened_abs_ = 0;
+    std::uint64_t       last_listened_abs_ = 0, seen_too_late_events_ = 0;
     std::uint16_t       latency_at_last_listen_ = 0;
     bool                listened_once_ = false;
     bool                must_listen_next_ = true;
@@ -199,6 +199,19 @@ private:
     bool                version_sent_by_central_ = false;
     bool                version_seen_from_peripheral_ = false;
     std::int64_t        app_procedure_started_local_us_ = -1;
+    bool                proc_watch_ = false;        // a peripheral initiated procedure is open and the central has sent nothing that could end it
+    std::int64_t        proc_watch_since_local_us_ = 0, last_proc_ending_pdu_local_us_ = -1, conn_update_applied_local_us_ = -1, last_app_procedure_call_local_us_ = -1;
+    // the request of a peripheral initiated procedure reached the central, which will not answer it. Not watched when a PDU that may end the
+    // procedure reached the peripheral after the application asked for it (the link layer may have seen it after queueing the request)
+    void arm_procedure_watch()
+    {
+        if ( last_proc_ending_pdu_local_us_ >= 0 && last_app_procedure_call_local_us_ >= 0 && last_proc_ending_pdu_local_us_ >= last_app_procedure_call_local_us_ ) return;
+        proc_watch_ = true; proc_watch_since_local_us_ = r_.now_us;
+        // (the instant of a connection update between the application's call and now: see the known finding about the one response timer)
+        proc_watch_conn_update_ = conn_update_applied_local_us_ >= 0 && last_app_procedure_call_local_us_ >= 0 && conn_update_applied_local_us_ >= last_app_procedure_call_local_us_;
+    }
+    bool                proc_ending_pdu_waits_for_instant_ = false;
+    bool                proc_watch_conn_update_ = false;    // ... but the instant of a connection update (delivered before the procedure started) was reached
     bool                app_version_req_ = false;
     unsigned            app_param_req_ = 0, app_phy_req_ = 0;      // successful requests of the application not yet seen on the air (each gives at most one PDU)
     int                 next_tag_ = 1;
@@ -322,7 +335,9 @@ inline void world::run( const sim::Plan& plan )
                 central_model::update u;
                 u.active = true;
                 u.kind = static_cast< int >( ( ( op.arg( 0 ) % 3 ) + 3 ) % 3 );
-                const std::int64_t delta = op.arg( 1 );
+                std::int64_t delta = op.arg( 1 );
+                // an instant that is meant to be legal stays legal with a long peripheral latency (the central knows the latency it granted)
+                if ( delta >= 6 && delta < 30000 ) delta += c_.latency;
                 u.instant = c_.abs_counter + static_cast< std::uint64_t >( delta );
                 u.legal = delta >= 6 + c_.latency && delta < 32767;
                 u.tag = next_tag_++;
@@ -334,7 +349,8 @@ inline void world::run( const sim::Plan& plan )
                     u.win_offset_us = static_cast< std::uint32_t >( ( ( op.arg( 3 ) % 6 ) + 6 ) % 6 ) * 1250;
                     if ( u.win_offset_us > u.interval_us ) u.win_offset_us = 0;
                     if ( u.win_size_us > u.interval_us - 1250 ) u.win_size_us = 1250;
-                    u.latency = static_cast< std::uint16_t >( ( ( op.arg( 5 ) % 5 ) + 5 ) % 5 );
+                    u.latency = static_cast< std::uint16_t >( ( ( op.arg( 5 ) % 500 ) + 500 ) % 500 );
+                    { const std::uint32_t lmax = 31900000u / ( u.interval_us * 2u ); if ( u.latency + 1u > lmax ) u.latency = static_cast< std::uint16_t >( lmax ? lmax - 1 : 0 ); }
                     u.timeout_us = std::max< std::uint32_t >( 100000, ( u.latency + 1u ) * 2 * u.interval_us + 10000 );
                     u.timeout_us = ( u.timeout_us + 9999 ) / 10000 * 10000;
                     if ( u.timeout_us > 32000000 ) u.timeout_us = 32000000;
@@ -610,7 +626,7 @@ inline void world::advertising_activity()
         must_listen_next_ = true;
         expected_rsp_.clear(); waiting_controls_.clear(); lapsed_optional_.clear(); current_acked_ = false; quiet_events_ = 0; control_checks_excused_ = false; late_update_kind_ = -1; upd_pdu_tag_ = 0;
         version_sent_by_central_ = version_seen_from_peripheral_ = false; rx_full_streak_ = 0;
-        app_procedure_started_local_us_ = -1; app_version_req_ = false; app_param_req_ = app_phy_req_ = 0;
+        app_procedure_started_local_us_ = -1; proc_watch_ = false; proc_watch_conn_update_ = false; last_proc_ending_pdu_local_us_ = -1; conn_update_applied_local_us_ = -1; last_app_procedure_call_local_us_ = -1; proc_ending_pdu_waits_for_instant_ = false; app_version_req_ = false; app_param_req_ = app_phy_req_ = 0;
         local_disconnect_requested_ = false;
         expected_close_reason_ = -1;
         raw_instant_pdu_sent_ = false; instant_passed_justified_ = false; tx_starved_since_update_ = false; remote_terminate_reasons_.clear(); map_update_sent_ = false; update_applied_local_us_ = -1;
@@ -652,7 +668,9 @@ inline bytes world::make_connect_request( const sim::Op& op, const bytes& adv, b
     const int kind = static_cast< int >( ( ( op.arg( 0 ) % 10 ) + 10 ) % 10 );
     const unsigned who = static_cast< unsigned >( ( ( op.arg( 1 ) % 12 ) + 12 ) % 12 );
     std::uint32_t interval = static_cast< std::uint32_t >( 6 + ( ( op.arg( 2 ) % 400 ) + 400 ) % 400 );
-    std::uint32_t latency = static_cast< std::uint32_t >( ( ( op.arg( 3 ) % 8 ) + 8 ) % 8 );
+    std::uint32_t latency = static_cast< std::uint32_t >( ( ( op.arg( 3 ) % 500 ) + 500 ) % 500 );      // 0..499, the range of the specification
+    // ... as far as the largest supervision timeout (32 s) permits with this interval: timeout > (1 + latency) * interval * 2
+    { const std::uint32_t lmax = 31900000u / ( interval * 1250u * 2u ); if ( latency + 1 > lmax ) latency = lmax ? lmax - 1 : 0; }
     std::uint32_t winsize = static_cast< std::uint32_t >( 1 + ( ( op.arg( 5 ) % 8 ) + 8 ) % 8 );
     if ( winsize > interval - 1 ) winsize = interval - 1;
     if ( winsize > 8 ) winsize = 8;
@@ -832,12 +850,16 @@ inline void world::central_advance_event()
             next += static_cast< std::int64_t >( static_cast< long double >( c_.upd.win_offset_us ) * 1000.0L * k ) + c_.upd.jitter_ns;
             timeout_before_update_us_ = c_.timeout_us; update_applied_local_us_ = to_local_us( next );
             c_.timing_unconfirmed = true;
+            if ( proc_watch_ ) proc_watch_conn_update_ = true;
+            conn_update_applied_local_us_ = r_.now_us;
             c_.interval_us = c_.upd.interval_us; c_.latency = c_.upd.latency; c_.timeout_us = c_.upd.timeout_us;
             break;
         case 1: std::memcpy( c_.chm, c_.upd.chm, 5 ); break;
         case 2: c_.phy = c_.upd.phy; break;
         }
         if ( c_.upd.acked && c_.upd.legal ) ++instants_applied;
+        // received PDUs queue up behind a PDU that waits for its instant: one that may end a procedure of the peripheral is looked at only now
+        if ( proc_ending_pdu_waits_for_instant_ ) { proc_ending_pdu_waits_for_instant_ = false; proc_watch_ = false; last_proc_ending_pdu_local_us_ = r_.now_us + static_cast< std::int64_t >( c_.interval_us ) * 2; }
         res_.note( "central applies update kind %d at event %llu", c_.upd.kind, (unsigned long long)c_.abs_counter );
         c_.upd.active = false;
     }
@@ -859,6 +881,7 @@ inline void world::connection_event_activity()
     const std::uint16_t k16 = static_cast< std::uint16_t >( ll_.event_counter() );
     // the absolute number of the event the peripheral aims at
     const std::uint64_t k_abs = c_.abs_counter + static_cast< std::uint64_t >( static_cast< std::int64_t >( static_cast< std::int16_t >( static_cast< std::uint16_t >( k16 - static_cast< std::uint16_t >( c_.abs_counter ) ) ) ) );
+    if ( getenv( "STACK_TRACE_AIR" ) ) res_.note( "  (central at event %llu, anchor %lld us local, T0 %lld)", (unsigned long long)c_.abs_counter, (long long)to_local_us( c_.anchor_ns ), (long long)r_.t0_us );
     res_.note( "evt k=%u ch %u win %lld..%lld", k16, r_.channel, (long long)( ws - r_.t0_us ), (long long)( we - r_.t0_us ) );
     if ( ws < r_.now_us && !c_.sync_excused )
         res_.probe( "window_starts_in_the_past" );
@@ -871,13 +894,27 @@ inline void world::connection_event_activity()
         late_update_kind_ = -1;
     }
 
+    // C27: a procedure the peripheral started and the central never answered ends the connection (LL Response Timeout) 40 s after it started -
+    // the timer runs from the transmission of the request; some events of slack for a request that waited for a transmit buffer and for the
+    // termination procedure
+    if ( proc_watch_ && p_connected_ && c_.connected && !local_disconnect_requested_ && !c_.sync_excused && !control_checks_excused_ )
+    {
+        const std::int64_t slack = 2000000 + 12 * static_cast< std::int64_t >( c_.interval_us ) * ( c_.latency + 1 );
+        if ( r_.now_us - proc_watch_since_local_us_ > 40000000 + slack )
+        {
+            violate( "C27", "procedure-timeout-missing", proc_watch_conn_update_ ? "procedure-timeout-missing connection-update-instant" : "procedure-timeout-missing", "a procedure the peripheral started %lld us ago got no answer and the connection is still up (LL Response Timeout is due after 40 s)",
+                     (long long)( r_.now_us - proc_watch_since_local_us_ ) );
+            proc_watch_ = false;
+        }
+    }
+
     // the central transmits its events whether or not the peripheral listens
     bool heard = false, crc_error = false;
     std::int64_t rx_local = 0;
     // 2 us tolerance: delta_time::ppm() rounds down by less than 1 us and the simulated radio has a resolution of 1 us
     // plus 2 ppm of the time since the last anchor: two clocks at opposite ends of their accuracy differ by slightly more than the sum
     // of the accuracies (1000.5 ppm for +-500 ppm), which the widening the property asks for (the sum) does not cover
-    const std::int64_t tolerance_us = 2 + static_cast< std::int64_t >( we ) / 500000;
+    const std::int64_t tolerance_us = 2 + static_cast< std::int64_t >( we - r_.t0_us ) / 500000;
     bool own_anchor_before_window = false;
     unsigned passed_unlistened = 0;
     std::int64_t own_anchor_local = 0;
@@ -887,12 +924,20 @@ inline void world::connection_event_activity()
         if ( c_.abs_counter == k_abs ) { own_anchor_before_window = true; own_anchor_local = to_local_us( c_.anchor_ns ); }
         ++passed_unlistened;
         central_unanswered_event();
+        if ( getenv( "STACK_TRACE_AIR" ) && c_.abs_counter + 3 > k_abs ) res_.note( "    central steps to %llu anchor %lld (ws %lld we %lld connected %d)", (unsigned long long)c_.abs_counter, (long long)to_local_us( c_.anchor_ns ), (long long)ws, (long long)we, c_.connected );
     }
     // whatever number the peripheral gives its event: the first event of a connection has to be listened to (there is no latency before it)
     if ( passed_unlistened && !listened_once_ && !own_anchor_before_window && !c_.sync_excused && ( c_.connected || !c_.heard_once ) )
     {
         violate( "C22", "window-misses-anchor", "window-misses-first-anchor not-listened", "the first receive window of the connection [%lld, %lld] us after the connect request opens after %u connection events of the central have passed (the peripheral calls it event %u)",
                  (long long)( ws - r_.t0_us ), (long long)( we - r_.t0_us ), passed_unlistened, k16 );
+        c_.sync_excused = true;
+    }
+    // Vol 6 Part B 4.5.7: when the window widening reaches half the interval (less T_IFS) the connection is to be considered lost - neighbouring
+    // events cannot be told apart any more; nothing about such an event is judged
+    if ( c_.connected && !c_.sync_excused && established_ && ( we - ws ) / 2 + 150 >= static_cast< std::int64_t >( c_.interval_us ) / 2 )
+    {
+        res_.probe( "window_widening_reached_half_the_interval" );
         c_.sync_excused = true;
     }
     const bool in_window = c_.connected && to_local_us( c_.anchor_ns ) <= we + tolerance_us;
@@ -933,19 +978,26 @@ inline void world::connection_event_activity()
                 const bool around_instant = map_update_sent_;      // a channel map update was delivered (or is on its way) on this connection
                 // the channel is wrong for the map in force at that event (C20); after a channel map update the cause is the handling of its instant (C21)
                 violate( "C20", "data-channel", std::string( around_instant ? "data-channel at-map-instant" : "data-channel" ), "event %llu scheduled on channel %u, Channel Selection Algorithm #1 gives %u (hop %u)", (unsigned long long)k_abs, r_.channel, want, c_.hop );
+                // event counter and channel index are to advance together (C23): without a map update in play the channel can only be wrong because they did not
+                if ( !around_instant )
+                    violate( "C23", "channel-index", "channel-index", "event %llu scheduled on channel %u: the channel index is not in step with the event counter (Channel Selection Algorithm #1 gives %u, hop %u)", (unsigned long long)k_abs, r_.channel, want, c_.hop );
                 if ( around_instant )
                     violate( "C21", "data-channel", "data-channel at-map-instant", "event %llu scheduled on channel %u, Channel Selection Algorithm #1 gives %u (hop %u)", (unsigned long long)k_abs, r_.channel, want, c_.hop );
                 c_.sync_excused = true;     // from here on the two sides hop differently: everything else would be a consequence
             }
         }
         // C23: latency
+        // (an event the peripheral wanted to attend but could not set up in time any more - with a long sleep the widened windows of neighbouring events
+        // touch - is not one it chose to skip)
+        const bool gave_up_too_late = r_.too_late_events != seen_too_late_events_;
+        seen_too_late_events_ = r_.too_late_events;
         if ( listened_once_ && k_abs > last_listened_abs_ )
         {
             const std::uint64_t skipped = k_abs - last_listened_abs_ - 1;
             if ( skipped ) { ++latency_skips; res_.probe( "events_skipped_by_latency", skipped ); }
             if ( skipped > std::max( c_.latency, latency_at_last_listen_ ) )
                 violate( "C23", "latency-exceeded", "latency-exceeded", "peripheral skips %llu events, the connection's peripheral latency is %u", (unsigned long long)skipped, std::max( c_.latency, latency_at_last_listen_ ) );
-            else if ( skipped && must_listen_next_ )
+            else if ( skipped && must_listen_next_ && !gave_up_too_late )
                 violate( "C23", "listen-condition", "listen-condition reason=" + std::to_string( listen_reason_event_ ), "peripheral skips %llu events although a configured listen condition (%llu) held at the last event", (unsigned long long)skipped, (unsigned long long)listen_reason_event_ );
             if ( c_.upd.active && c_.upd.acked && last_listened_abs_ < c_.upd.instant && k_abs > c_.upd.instant )
                 violate( "C21", "instant-skipped", "instant-skipped", "peripheral latency skips the instant %llu (listening at %llu)", (unsigned long long)c_.upd.instant, (unsigned long long)k_abs );
@@ -1045,6 +1097,10 @@ inline void world::connection_event_activity()
                     if ( !c_.inflight.delivered )
                     {
                         c_.inflight.delivered = true;
+                        // PDUs of the central that may end a procedure the peripheral started (an answer, a reject, the central's own version exchange, a
+                        // connection update - Bluetoe has one response timer for all procedures -, a termination)
+                        if ( c_.inflight.llid == 3 && !c_.inflight.payload.empty() )
+                            switch ( c_.inflight.payload[ 0 ] ) { case 0x00: case 0x02: case 0x07: case 0x0c: case 0x0d: case 0x0f: case 0x10: case 0x11: case 0x16: case 0x18: proc_watch_ = false; last_proc_ending_pdu_local_us_ = r_.now_us; if ( c_.upd.active && c_.upd.acked && c_.inflight.tag != upd_pdu_tag_ ) proc_ending_pdu_waits_for_instant_ = true; break; default: break; }
                         if ( ll_.has_encryption ) enc_pdu_delivered( c_.inflight, pdu_enc );
                         // an instant based PDU that reaches the peripheral when its instant cannot be met any more
                         if ( c_.upd.tag > 0 && upd_pdu_tag_ != 0 && c_.inflight.tag == upd_pdu_tag_ )
@@ -1174,9 +1230,11 @@ inline void world::central_handle_control( const ll_pdu& p )
         version_seen_from_peripheral_ = true;
         relax_version_expectations();
         res_.probe( "peripheral_initiated_version_exchange" );
+        // the request is on the air: the central will not answer it (it answers nothing the peripheral starts)
+        arm_procedure_watch();
         return;
     }
-    if ( opcode == 0x0f && app_param_req_ ) { --app_param_req_; res_.probe( "peripheral_initiated_param_request" ); return; }
+    if ( opcode == 0x0f && app_param_req_ ) { --app_param_req_; res_.probe( "peripheral_initiated_param_request" ); arm_procedure_watch(); return; }
     if ( opcode == 0x16 && app_phy_req_ ) { --app_phy_req_; return; }
     if ( opcode == 0x02 )
     {
@@ -1443,9 +1501,9 @@ inline void world::do_app( const sim::Op& op )
     case 2:                                                                           // disconnect
         if ( p_connected_ && established_ ) { result = ll_.app( 2, a, b ); local_disconnect_requested_ = true; expected_close_reason_ = 0x16; }
         break;
-    case 3: if ( p_connected_ && established_ ) { result = ll_.app( 3, a, b ); if ( result ) { ++app_param_req_; if ( app_procedure_started_local_us_ < 0 ) app_procedure_started_local_us_ = r_.now_us; } } break;
+    case 3: if ( p_connected_ && established_ ) { result = ll_.app( 3, a, b ); if ( result ) { ++app_param_req_; last_app_procedure_call_local_us_ = r_.now_us; if ( app_procedure_started_local_us_ < 0 ) app_procedure_started_local_us_ = r_.now_us; } } break;
     case 4: if ( p_connected_ && established_ ) { result = ll_.app( 4, a, b ); if ( result ) ++app_phy_req_; } break;
-    case 5: if ( p_connected_ && established_ ) { result = ll_.app( 5, a, b ); if ( result ) { app_version_req_ = true; relax_version_expectations(); if ( app_procedure_started_local_us_ < 0 ) app_procedure_started_local_us_ = r_.now_us; } } break;
+    case 5: if ( p_connected_ && established_ ) { result = ll_.app( 5, a, b ); if ( result ) { app_version_req_ = true; relax_version_expectations(); last_app_procedure_call_local_us_ = r_.now_us; if ( app_procedure_started_local_us_ < 0 ) app_procedure_started_local_us_ = r_.now_us; } } break;
     case 6:                                                                           // white list
         if ( ll_.has_white_list )
         {
@@ -1550,7 +1608,10 @@ inline void world::after_callbacks( const char* )
                 }
                 else if ( since < 0 )
                     violate( "C27", "procedure-timeout-without-procedure", "procedure-timeout-without-procedure", "connection closed with LL Response Timeout although no peripheral initiated procedure was running" );
-                else if ( since + static_cast< std::int64_t >( c_.interval_us ) * ( c_.latency + 2 ) < 40000000 )
+                // (the link layer counts in connection events: the request is queued somewhere inside an interval, the timer is charged with whole
+                // intervals and the decision falls at the event before the one that would exceed it)
+                // plus one per mille of the 40 s: the timer is charged with the time between events as the link layer sees it
+                else if ( since + static_cast< std::int64_t >( c_.interval_us ) * ( c_.latency + 4 ) + 40000 < 40000000 )
                     violate( "C27", "procedure-timeout-early", "procedure-timeout-early", "connection closed with LL Response Timeout %lld us after the procedure started (40 s required)", (long long)since );
             }
             else if ( reason == 0x28 )
